@@ -665,7 +665,7 @@ fn sweep<'a, 'e, T: IteTable<'a, BddPtr<'a>> + Default>(
     // every A, B, A triple (A != B) over conditioning on a literal, quantification and conditioning on a
     // partial model, on the same function: "ask, disturb with another kind of call, ask the same again" is
     // what a memo that is tagged or invalidated by one entry point and not by the other needs
-    if !s.stop {
+    if !s.stop && !crate::core::disabled("aba") {
         let fstep = if total <= 1024 { 1 } else { 16 };
         let nmodels = 3usize.pow(n as u32);
         'q: for &i in perm.iter().step_by(fstep) {
